@@ -59,6 +59,7 @@ let parse_env (f : string list) : M.label =
   | ["feed"; "bad"; _] -> M.LFeed (M.FMsg Msg.InBad)
   | ["feed"; "empty"; _] -> M.LFeed (M.FMsg (Msg.InMsgs (true, [])))
   | ["feed"; "err"; k] -> M.LFeed (M.FErr (cause k))
+  | ["sendfault"; b] -> M.LSendFault (b01 b)
   | ["gate"; p; "res"; raw] -> M.LGate (hx p, M.ORes (hx raw))
   | ["gate"; p; "err"; c; m] -> M.LGate (hx p, M.OErr (z_of_string c, hx m))
   | ["callstop"; n] -> M.LCallStop (nat_of_int (int_of_string n))
@@ -102,7 +103,24 @@ let show_obs = function
 
 type pending = { mutable items : (A.item * int) list }  (* reversed *)
 
+(* projection per property: which observables the check for that property compares *)
+let mk start ctx send sendreq close ret wait parked used calls queue running =
+  { A.mk_start = start; mk_ctx = ctx; mk_send = send; mk_sendreq = sendreq; mk_close = close; mk_ret = ret;
+    mk_wait = wait; mk_parked = parked; mk_used = used; mk_calls = calls; mk_queue = queue; mk_running = running }
+let mask_of = function
+  (*                 start ctx   send  sreq  close ret   wait  parkd used  calls queue runng *)
+  | "c01" -> mk      true  false true  false false false false true  false false true  false
+  | "c03" -> mk      true  false false false false false false true  false false true  false
+  | "c06" -> mk      true  false true  false false false false true  false false false false
+  | "c07" -> mk      true  true  true  false false true  false false true  false false false
+  | "c08" -> mk      true  true  true  false true  true  true  true  true  true  true  true
+  | "c09" -> mk      false false true  true  false true  false false false true  false false
+  | "c10" -> mk      false false true  true  true  false false false false false false false
+  | _ -> A.mask_all
+
 let () =
+  let mask = ref A.mask_all in
+  if Array.length Sys.argv > 1 then mask := mask_of Sys.argv.(1);
   let cfg = ref None in
   let hdr = ref "? ? ?" in
   let cur : (string list * int) option ref = ref None in   (* env/rel line awaiting its observations *)
@@ -150,7 +168,7 @@ let () =
         (match !cfg with
          | None -> Printf.printf "BADLOG %s no cfg\n" !hdr
          | Some s0 ->
-           (match A.accept [s0] (List.map fst its) Model.Datatypes.O with
+           (match A.accept !mask [s0] (List.map fst its) Model.Datatypes.O with
             | A.Accepted (n, _) -> Printf.printf "OK %s states=%d items=%d\n" !hdr (int_of_nat n) (List.length its)
             | A.Rejected (i, exp) ->
               let i = int_of_nat i in
